@@ -145,6 +145,30 @@ mod proofs {
             }
         };
     }
+    // ---- Pippenger window heuristic (C10): for every number of components, both groups --------------------------
+    mod pippenger_window {
+        use pairing::bls12_381::{G1Affine, G2Affine};
+        use pairing::CurveAffine;
+        const TABLE: [(usize, usize); 16] = [(1, 1), (2, 2), (20, 3), (43, 4), (105, 5), (239, 6), (578, 7), (1258, 8), (3464, 9), (6492, 10),
+                                             (17146, 11), (33676, 12), (60319, 13), (218189, 14), (303280, 15), (543651, 16)];
+        fn spec(n: usize) -> usize { let mut w = 1; let mut i = 0; while i < 16 { if TABLE[i].0 <= n { w = TABLE[i].1; } i += 1; } w }
+        #[kani::proof] #[kani::unwind(18)]
+        fn g1_window() {
+            let n: usize = kani::any(); let m: usize = kani::any();
+            let w = <G1Affine as CurveAffine>::find_pippinger_window(n);
+            assert!(1 <= w && w <= 16);
+            assert!(w == spec(n));
+            kani::assume(n <= m);
+            assert!(w <= <G1Affine as CurveAffine>::find_pippinger_window(m));     // monotone
+        }
+        #[kani::proof] #[kani::unwind(18)]
+        fn g2_window() {
+            let n: usize = kani::any();
+            let w = <G2Affine as CurveAffine>::find_pippinger_window(n);
+            assert!(1 <= w && w <= 16);
+            assert!(w == spec(n));
+        }
+    }
     field_harnesses!(fq_field, Fq, FqRepr, 6, pairing::bls12_381::transmute::fq);
     field_harnesses!(fr_field, Fr, FrRepr, 4, pairing::bls12_381::transmute::fr);
     repr_harnesses!(fq_repr, FqRepr, 6);
